@@ -67,10 +67,19 @@ class Node(object):
     file descriptors and descriptor numbers are only ever taken by the library.
     """
 
-    def __init__(self, target_factory, name=None, symlink=False, chr=False):
+    def __init__(self, target_factory, name=None, symlink=False, chr=False, vanish="unlink"):
         global _counter
         _counter += 1
-        self.path = os.path.join(root(), name or "node%d" % _counter)
+        # vanish: how unplug() makes the node disappear - "unlink" (ENOENT), "eloop" (the name becomes a symbolic link to itself: stat
+        # fails with ELOOP), "enotdir" (the directory holding the node is replaced by a plain file: ENOTDIR)
+        self.vanish = vanish
+        self.dirpath = None
+        if vanish == "enotdir":
+            self.dirpath = os.path.join(root(), "bus%d" % _counter)
+            os.makedirs(self.dirpath, exist_ok=True)
+            self.path = os.path.join(self.dirpath, name or "node")
+        else:
+            self.path = os.path.join(root(), name or "node%d" % _counter)
         # with symlink=True the device path is a symbolic link (like /dev/disk/by-id/...) to the node that gets replaced
         self.real = self.path + ".real" if symlink else self.path
         # symlink="repoint": every generation is a file of its OWN name (sda, sdb, ...) that stays in place; the link is re-pointed
@@ -79,6 +88,7 @@ class Node(object):
             os.symlink(self.real, self.path)
         # with chr=True every generation is a character special file for the SAME device number (1:3), as a re-plugged /dev/sgN is
         self.chr = chr
+        self.keepbase = os.path.join(root(), "keep%d" % _counter)      # hard links that keep every generation's inode alive
         self.target_factory = target_factory
         self.generation = 0
         self.targets = {}          # generation -> Target
@@ -89,6 +99,13 @@ class Node(object):
 
     def plug(self):
         """(re)create the node: new inode, new generation"""
+        if self.dirpath is not None and not os.path.isdir(self.dirpath):
+            os.unlink(self.dirpath)
+            os.rename(self.dirpath + ".gone", self.dirpath)
+            try:
+                os.unlink(self.real)
+            except OSError:
+                pass
         self.generation += 1
         tmp = self.path + ".new%d" % self.generation
         if self.chr:
@@ -98,7 +115,7 @@ class Node(object):
             fd = os.open(tmp, os.O_CREAT | os.O_RDWR | os.O_EXCL, 0o600)
             st = os.fstat(fd)
             os.close(fd)
-        os.link(tmp, self.path + ".keep%d" % self.generation)
+        os.link(tmp, self.keep_path(self.generation))
         if self.repoint:
             self.real = self.path + ".sd%d" % self.generation
             os.rename(tmp, self.real)
@@ -115,9 +132,29 @@ class Node(object):
         self.present = True
         return tgt
 
+    def repoint_to(self, generation):
+        """(links that are re-pointed only) point the link back at an earlier generation's node, which is still in place"""
+        target = self.path + ".sd%d" % generation
+        lnk = self.path + ".lnk"
+        os.symlink(target, lnk)
+        os.replace(lnk, self.path)
+        self.real = target
+        self.generation_now = generation
+
+    def keep_path(self, generation):
+        return "%s.%d" % (self.keepbase, generation)
+
     def unplug(self):
         if self.present:
-            os.unlink(self.real)
+            if self.vanish == "eloop":
+                tmp = self.real + ".loop"
+                os.symlink(self.real, tmp)
+                os.replace(tmp, self.real)
+            elif self.vanish == "enotdir":
+                os.rename(self.dirpath, self.dirpath + ".gone")
+                open(self.dirpath, "w").close()
+            else:
+                os.unlink(self.real)
             self.present = False
 
     def current_ino(self):
@@ -146,7 +183,7 @@ class Node(object):
     def destroy(self):
         for g in list(self.inodes):
             try:
-                os.unlink(self.path + ".keep%d" % g)
+                os.unlink(self.keep_path(g))
             except OSError:
                 pass
         for p in {self.path, self.real} | {self.path + ".sd%d" % g for g in self.inodes}:
@@ -156,3 +193,12 @@ class Node(object):
                 pass
         for ino in self.inodes.values():
             registry.by_inode.pop(ino, None)
+        if self.dirpath is not None:
+            for d in (self.dirpath, self.dirpath + ".gone"):
+                try:
+                    if os.path.isdir(d):
+                        shutil.rmtree(d, ignore_errors=True)
+                    else:
+                        os.unlink(d)
+                except OSError:
+                    pass
